@@ -291,11 +291,82 @@ def parse_text(text):
     return {"entries": entries, "summary": {"total": int(t), "passed": int(p), "warning": int(w), "failed": int(f), "grandfathered": int(g or 0)}}
 
 
-_MD_ROW = re.compile(r"(?ms)^\| (✅|⚠️|❌|🔵) (Passed|Warning|Failed|Grandfathered) \| `(.*?)` \| (\d+) \| (\d+) \| (\d+) \| (\d+) \| (\d+) \| (\d+) \| (.*?) \|$")
 _MD_ICON = {"✅": "passed", "⚠️": "warning", "❌": "failed", "🔵": "grandfathered"}
+_MD_LINES = re.compile(r"\r\n|\n|\r")
+_MD_PUNCT = set("!\"#$%&'()*+,-./:;<=>?@[\\]^_`{|}~")
+
+
+def md_one_line(s):
+    """what the Markdown report is required to show for a name / reason: the text on one line (a line break is shown as a space)"""
+    return s.replace("\r\n", " ").replace("\n", " ").replace("\r", " ")
+
+
+def md_shown_name(s):
+    """the name a renderer shows for the code span the report writes for `s`: the text on one line; CommonMark 6.1 drops one
+    space at each end of a span whose content both begins and ends with a space (the report pads only spans that need a longer
+    fence), so such a name is shown without that pair - a presentational loss like the trimming of table cells, documented"""
+    s = md_one_line(s)
+    if "`" not in s and len(s) >= 2 and s[0] == " " == s[-1] and s.strip(" "):
+        return s[1:-1]
+    return s
+
+
+def md_split_row(line):
+    """cells of one table row as a GFM table parser reads them (cmark-gfm: cells end at a pipe that is not preceded by a
+    backslash; the backslash of an escaped pipe is removed BEFORE the cell is read as inline text); None if not a row"""
+    if not line.startswith("|") or not line.rstrip(" ").endswith("|") or len(line.rstrip(" ")) < 2:
+        return None
+    body = line.rstrip(" ")[1:]
+    cells, cur, i = [], "", 0
+    while i < len(body):
+        if body[i] == "\\" and i + 1 < len(body) and body[i + 1] == "|":
+            cur += "|"
+            i += 2
+        elif body[i] == "|":
+            cells.append(cur.strip(" "))
+            cur = ""
+            i += 1
+        else:
+            cur += body[i]
+            i += 1
+    if cur.strip(" "):
+        return None          # text behind the closing pipe
+    return cells
+
+
+def md_code_span(cell):
+    """the literal text of a cell that is exactly one inline code span (CommonMark 6.1); raises Bad otherwise"""
+    n = len(cell) - len(cell.lstrip("`"))
+    if n == 0 or len(cell) < 2 * n or not cell.endswith("`" * n):
+        raise Bad("markdown: file cell %r is not a code span" % cell[:80])
+    inner = cell[n:len(cell) - n]
+    if inner.startswith("`") or inner.endswith("`") or any(len(r) == n for r in re.findall(r"`+", inner)):
+        raise Bad("markdown: the code span of file cell %r ends early (a backtick run of the fence length inside)" % cell[:80])
+    if len(inner) >= 2 and inner[0] == " " and inner[-1] == " " and inner.strip(" "):
+        inner = inner[1:-1]
+    return inner
+
+
+def md_inline_text(cell):
+    """the text a cell of plain inline text shows: backslash escapes of ASCII punctuation resolved; a backtick that is not
+    escaped would open a code span -> Bad"""
+    out, i = "", 0
+    while i < len(cell):
+        if cell[i] == "\\" and i + 1 < len(cell) and cell[i + 1] in _MD_PUNCT:
+            out += cell[i + 1]
+            i += 2
+        elif cell[i] == "`":
+            raise Bad("markdown: unescaped backtick in a text cell %r" % cell[:80])
+        else:
+            out += cell[i]
+            i += 1
+    return out
 
 
 def parse_markdown(text):
+    """Reads the report the way a GFM renderer does: lines, table rows split at unescaped pipes, the file cell as a code
+    span, the reason cell as inline text. A file name or reason that breaks a cell, a span or a row makes the Details table
+    ill-formed (Bad) - in particular the second half of a split row cannot pose as a row."""
     def metric(label):
         m = re.findall(r"(?m)^\| %s \| (\d+) \|$" % re.escape(label), text)
         return int(m[0]) if len(m) >= 1 else None
@@ -304,15 +375,31 @@ def parse_markdown(text):
     if None in summ.values():
         raise Bad("markdown: summary table incomplete")
     entries, rows = [], []
-    det = text.find("### Details")
-    if det >= 0:
-        end = text.find("### Split Suggestions", det)
-        for m in _MD_ROW.finditer(text[det:end if end >= 0 else len(text)]):
-            if _MD_ICON[m.group(1)] != m.group(2).lower():
+    lines = _MD_LINES.split(text)
+    if "### Details" in lines:
+        k = lines.index("### Details")
+        if lines[k + 1:k + 2] != [""] or md_split_row(lines[k + 2] if k + 2 < len(lines) else "") != \
+                ["Status", "File", "Total", "Lines", "Limit", "Code", "Comment", "Blank", "Reason"] or not re.fullmatch(r"\|[:\-|]+\|", lines[k + 3] if k + 3 < len(lines) else ""):
+            raise Bad("markdown: Details table without its header / delimiter row")
+        for line in lines[k + 4:]:
+            if line == "":
+                break
+            cells = md_split_row(line)
+            if cells is None or len(cells) != 9:
+                raise Bad("markdown: Details table: line %r is not a row of 9 cells (%s)" % (line[:100], "no row" if cells is None else "%d cells" % len(cells)))
+            st = cells[0].split(" ")
+            if len(st) != 2 or st[0] not in _MD_ICON or st[1].lower() not in STATUS:
+                raise Bad("markdown: status cell %r" % cells[0][:40])
+            if _MD_ICON[st[0]] != st[1].lower():
                 raise Bad("markdown: icon and status word disagree")
-            entries.append((m.group(3), m.group(2).lower()))
-            rows.append({"path": m.group(3), "total": int(m.group(4)), "sloc": int(m.group(5)), "limit": int(m.group(6)), "code": int(m.group(7)),
-                         "comment": int(m.group(8)), "blank": int(m.group(9)), "reason": m.group(10)})
+            if not all(re.fullmatch(r"\d+", c) for c in cells[2:8]):
+                raise Bad("markdown: a count cell is not a number: %r" % cells[2:8])
+            path = md_code_span(cells[1])
+            entries.append((path, st[1].lower()))
+            rows.append({"path": path, "total": int(cells[2]), "sloc": int(cells[3]), "limit": int(cells[4]), "code": int(cells[5]),
+                         "comment": int(cells[6]), "blank": int(cells[7]), "reason": md_inline_text(cells[8])})
+    elif re.search(r"(?m)^\|.*(Passed|Warning|Failed|Grandfathered) \|", text.split("### Split Suggestions")[0].split("|------:|\n", 1)[-1].split("\n\n", 1)[-1]):
+        raise Bad("markdown: result rows outside a Details table")
     return {"entries": entries, "summary": summ, "rows": rows}
 
 
@@ -565,7 +652,10 @@ def coq_str(s):
 
 SPECIAL_NAMES = ["a b", "q'uote", 'dq"x', "amp&ersand", "lt<gt>", "<b>bold<", "<img src=x onerror=alert(1)>", "semi;colon", "new\nline", "tab\there",
                  "per%41cent", "100%", "hash#frag", "quest?ion", "unié中", "emoji\U0001f600", "back`tick", "pipe|bar", "&amp;", "&lt;script&gt;",
-                 "-->", "]]>", "'\"><svg onload=1>", "a&#39;b", "dollar$", "paren(s)", "brace{s}", "star*", "back\\slash", "\x7fdel", "\x01ctl"]
+                 "-->", "]]>", "'\"><svg onload=1>", "a&#39;b", "dollar$", "paren(s)", "brace{s}", "star*", "back\\slash", "\x7fdel", "\x01ctl",
+                 # Markdown table / code-span structure: cell break, span break, row break, a forged row behind a line break
+                 "a|b`c", "new\nline | \u2705 Passed | x", "x\n| \u2705 Passed | `y.rs` | 1 | 1 | 9 | 1 | 0 | 0 | - |", "two``ticks`", "`lead", "trail`", "cr\rret",
+                 "esc\\|pipe", "``", "| x |"]
 PLAIN = ["a", "b", "c", "main", "lib", "util", "core", "x1", "y2", "mod", "app", "zeta", "alpha"]
 BAD_BYTES = [b"\xff", b"\xfe\xfd", b"\xc3", b"\xe2\x82", b"\xed\xa0\x80"]
 LANGS = {  # ext -> (builtin language name, line comment, sample code line)
@@ -754,6 +844,13 @@ def gen_project(rng, kind):
         if rng.random() < (0.5 if kind in ("plain", "ties") else 0.25):
             P.files[rel] += ignored_tail(ext, cm, rng.choice([1, 2, 3]), rng)
             P.tags.add("ignored-lines")
+    if rng.random() < 0.6:
+        # EMPTY recognised source files (package markers): zero lines in every figure, status passed; a counted file
+        # like any other in every report, on cold and on warm (cached) runs alike
+        for _ in range(rng.choice([1, 2, 3])):
+            d, e = rng.choice(dirs), rng.choice(all_exts)
+            P.files[(d + b"/" if d else b"") + rng.choice([b"__init__", b"empty", b"marker_%d" % rng.randrange(3)]) + b"." + e.encode()] = ""
+        P.tags.add("empty-file")
     if kind == "ties":
         # one file per language, equal code, one directory each: ties in both breakdown keys
         for e in exts:
@@ -783,7 +880,8 @@ def gen_project(rng, kind):
 # ------------------------------------------------------------------ generators: library-level cases
 
 STRS = ["", "a", "src/main.rs", "a b", "<", ">", "&", '"', "'", "&amp;", "&lt;", "&#39;", "&quot", "&&", "<<>>", "a<b>c&d\"e'f", "\n", "\t", "\\", "`|`",
-        "é", "中文", "\U0001f600", "</div>", "<script>alert(1)</script>", "-->", "&#x3c;", "%41", "x" * 40, "|", "` | 1 | 2 |", "]]>", "&;", ";", "#39;", "amp;"]
+        "é", "中文", "\U0001f600", "</div>", "<script>alert(1)</script>", "-->", "&#x3c;", "%41", "x" * 40, "|", "` | 1 | 2 |", "]]>", "&;", ";", "#39;", "amp;",
+        "`", "``", "a`b``c", "\r", "\r\n", "\\|", "\\`", "x\n| \u2705 Passed | `y.rs` | 1 | 1 | 9 | 1 | 0 | 0 | - |", "\\"]
 
 
 def rand_string(rng):
@@ -819,7 +917,8 @@ def gen_fmt_case(rng):
         if structure and r["reason"] is None:
             r["reason"] = "structure: " + kind
         if r["reason"] is not None:
-            r["reason"] = r["reason"].replace("\n", " ")            # reasons come from one-line config strings
+            if rng.random() < 0.75:                                 # mostly one-line strings; a TOML string may hold line breaks too
+                r["reason"] = r["reason"].replace("\n", " ").replace("\r", " ")
         if st in (1, 2) and rng.random() < 0.4:
             r["sugg"] = [[rand_string(rng), [rand_string(rng) for _ in range(rng.randrange(0, 3))]] for _ in range(rng.randrange(0, 3))]
         if rng.random() < 0.08:
